@@ -96,6 +96,10 @@ def _extra_configs(tier):
         for k in ('RegDW', 'LatchDW', 'BufEnableRW', 'SignRW'):
             out.append({'block': 'TwinDifferentOptions', 'kind': k, 'w': w})
         out.append({'block': 'Fanout', 'w': w})
+        out.append({'block': 'TwinSharedWire', 'kind': 'Add', 'w': w, 'first': 0})
+        out.append({'block': 'TwinSharedWire', 'kind': 'Add', 'w': w, 'first': 1})
+    for first in (0, 1):
+        out.append({'block': 'TwinSharedWire', 'kind': 'Reg', 'w': 1, 'first': first})
     for aw, dw in ([(1, 1), (1, 2), (2, 1), (2, 2)] if T else [(1, 1), (1, 2), (2, 1)]):
         out.append({'block': 'AsynchronousMemory', 'aw': aw, 'dw': dw})
     out.append({'block': 'AutoReset'})
@@ -176,6 +180,30 @@ def _build_extra(d):
     elif b == 'TwinDifferentOptions':
         _inst(d['kind'], hw, 'u0', hw, 'u0', d['w'], ins, outs, 0)
         _inst(d['kind'], hw, 'u1', hw, 'u1', d['w'], ins, outs, 1)
+    elif b == 'TwinSharedWire':
+        # one instance ties two of its ports to the same wire, the other instance of the same (named) module does not;
+        # both emission orders
+        w = d['w']
+
+        def tied(nm):
+            if d['kind'] == 'Add':
+                a = I(nm + '_a', w)
+                P.Add(hw, nm, a, a, O(nm + '_r', w))
+            else:
+                x = I(nm + '_x')
+                P.Reg(hw, nm, x, O(nm + '_q'), enable=x)
+
+        def free(nm):
+            if d['kind'] == 'Add':
+                P.Add(hw, nm, I(nm + '_a', w), I(nm + '_b', w), O(nm + '_r', w))
+            else:
+                P.Reg(hw, nm, I(nm + '_d'), O(nm + '_q'), enable=I(nm + '_e'))
+        if d['first']:
+            tied('u0')
+            free('u1')
+        else:
+            free('u0')
+            tied('u1')
     elif b == 'Fanout':
         w = d['w']
         a = I('a', w)
